@@ -13,11 +13,60 @@ from .. import mdl as M, gen_net as G, netcheck as N
 PID = "C04"
 
 
+def gen_sparse_group(rng):
+    """stratum: one large group (3-14 structurally identical nodes) with one-to-one edges in shuffled order (distinct targets), so that
+    the indexed (non-matrix) branch of the edge compiler is taken; optionally forced with matrix_sparseness"""
+    n = rng.choice([3, 4, 6, 10, 11, 12, 14])
+    op = {"name": "li", "eqs": [{"lhs": "x", "de": True, "rhs": M.add(M.mul(M.num(F(-1, 2)), M.var("x")), M.mul(M.var("k"), M.var("r_in")))}],
+          "vars": {"x": {"decl": "output", "value": "1"}, "k": {"decl": "const", "value": "1"}, "r_in": {"decl": "input", "value": "0"}}}
+    nts = {}
+    labels = [f"n{i}" for i in range(n)]
+    nodes = {}
+    for i, l in enumerate(labels):
+        nts[f"T{i}"] = {"name": f"t{i}", "ops": ["O"], "overrides": {"O": {"x": str(F(rng.randint(-6, 6), 2)), "k": str(F(rng.choice([1, 2, 3, -1]), rng.choice([1, 2])))}}}
+        nodes[l] = f"T{i}"
+    srcs = labels[:]
+    rng.shuffle(srcs)
+    tg = labels[:]
+    rng.shuffle(tg)
+    k = rng.randint(max(2, n // 2), n)
+    edges = [{"src": f"{s}/li/x", "tgt": f"{t}/li/r_in", "w": str(F(rng.choice([1, 2, 3, -2, 5]), rng.choice([1, 2])))} for s, t in list(zip(srcs, tg))[:k]]
+    rng.shuffle(edges)
+    return {"ops": {"O": op}, "node_templates": nts, "circuit": {"name": "net", "nodes": nodes, "edges": edges}}
+
+
+def add_edge_templates(rng, mdl):
+    """turn some edges into edges with an EdgeTemplate (algebraic or dynamic edge operator) and edge-specific parameter values"""
+    eops = {"EA": {"name": "eop", "eqs": [{"lhs": "eo", "de": False, "rhs": M.mul(M.var("ea"), M.var("s_in"))}],
+                   "vars": {"eo": {"decl": "output", "value": "0"}, "ea": {"decl": "const", "value": "2"}, "s_in": {"decl": "input", "value": "0"}}},
+            "ED": {"name": "edyn", "eqs": [{"lhs": "ez", "de": True, "rhs": M.sub(M.mul(M.var("ek"), M.var("s_in")), M.var("ez"))}],
+                   "vars": {"ez": {"decl": "output", "value": "0"}, "ek": {"decl": "const", "value": "1"}, "s_in": {"decl": "input", "value": "0"}}}}
+    mdl["ops"].update(eops)
+    mdl["edge_templates"] = {"TA": {"name": "etA", "op": "EA"}, "TD": {"name": "etD", "op": "ED"}}
+
+    def walk(c):
+        for e in c.get("edges", []):
+            if rng.random() < 0.6:
+                t = rng.choice(["TA", "TA", "TD"])
+                e["template"] = t
+                # every templated edge carries its own parameter value (edges that mix given / not given values raise a KeyError in _group_edges)
+                e["values"] = {("ea" if t == "TA" else "ek"): str(F(rng.choice([1, 2, 3, -1, 5]), rng.choice([1, 2])))}
+        for sub in c.get("circuits", {}).values():
+            walk(sub)
+    walk(mdl["circuit"])
+
+
 def gen_case(rng, tier):
     for _ in range(80):
-        mdl = G.gen_model(rng, max_nodes=6, min_nodes=2, linear=True, clones=True, depth=rng.choice([0, 0, 0, 1]), hostile=rng.random() < 0.5)
+        sparse = rng.random() < 0.25
+        if sparse:
+            mdl = gen_sparse_group(rng)
+        else:
+            mdl = G.gen_model(rng, max_nodes=6, min_nodes=2, linear=True, clones=True, depth=rng.choice([0, 0, 0, 1]), hostile=rng.random() < 0.5)
+        if not sparse and rng.random() < 0.35:
+            add_edge_templates(rng, mdl)
         flat = M.flatten(mdl)
-        sp = M.state_paths(flat)
+        sp = [p for p in M.state_paths(flat) if not p.startswith("__edge")]
         if len(set(sp)) != len(sp):
             continue
         dt = rng.choice([F(1), F(1, 2), F(1, 2), F(1, 4)])
@@ -25,6 +74,8 @@ def gen_case(rng, tier):
         case = {"mdl": mdl, "run": {"T": C.q2s(dt * steps), "dt": C.q2s(dt), "solver": rng.choice(["euler", "euler", "heun"]),
                                     "outputs": {f"v{i}": p for i, p in enumerate(sp)}},
                 "style": {"space": rng.random() < 0.7, "pow": "^", "ddt": rng.random() < 0.3}, "in_place": rng.random() < 0.5}
+        if sparse and rng.random() < 0.6:
+            case["run"]["kwargs"] = {"matrix_sparseness": rng.choice([0.5, 0.9, 1.0])}
         o = N.oracle_traj(case)
         if "error" in o or o["bits"] > 44:
             continue
@@ -39,6 +90,10 @@ def run_both(case):
         c["run"]["vectorize"] = vec
         out["vec" if vec else "novec"] = N.impl_run(c)
     return out
+
+
+def _unused():
+    pass
 
 
 def expected_cols(case, orc):
@@ -126,7 +181,25 @@ def kf_group_alg_loop(case, mode, im, dev):
     return False
 
 
-KNOWN = {"C04-group-algebraic-loop": (kf_group_alg_loop, "vectorize=True: an edge from an algebraic variable to a node of the same merged group makes the vector-valued variable depend on itself; the stale value of the previous evaluation is used"),
+def kf_parallel_template_edges(case, mode, im, dev):
+    """vectorize=False: two or more edges with the same EdgeTemplate between the same pair of variables -> IndexError at compile time"""
+    if mode != "novec" or im.get("error") != "IndexError":
+        return False
+    seen = {}
+
+    def walk(c, prefix=""):
+        for e in c.get("edges", []):
+            if e.get("template"):
+                k = (prefix + e["src"], prefix + e["tgt"], e["template"])
+                seen[k] = seen.get(k, 0) + 1
+        for l, sub in c.get("circuits", {}).items():
+            walk(sub, prefix + l + "/")
+    walk(case["mdl"]["circuit"])
+    return any(v >= 2 for v in seen.values())
+
+
+KNOWN = {"C04-parallel-template-edges-novec": (kf_parallel_template_edges, "vectorize=False: several edges with the same EdgeTemplate between the same two variables raise IndexError('invalid index to scalar variable') while vectorize=True compiles them"),
+         "C04-group-algebraic-loop": (kf_group_alg_loop, "vectorize=True: an edge from an algebraic variable to a node of the same merged group makes the vector-valued variable depend on itself; the stale value of the previous evaluation is used"),
          "C04-dot-edge-valueerror": (kf_dot_edge_singleton, "vectorize=True: function raises 'setting an array element with a sequence' when a single member of a group is the target of a matrix (dot) edge from >= 2 sources")}
 
 
